@@ -232,6 +232,66 @@ def check_textfile():
     return cases, failures, [{'delimiter': '--', 'reads': ['a-', '-a']}]
 
 
+def check_textfile_bytes():
+    """C17, byte level: the real from_textfile source opens a real file by name; a writer appends the UTF-8 bytes of a text in
+    <= 3 writes cut at EVERY byte position (also inside a multi-byte character and inside \\r\\n), one poll after each write:
+    the records delivered are the leftmost split of the whole text, unmodified.  Texts: <= 4 characters over {a, e-acute, \\r, \\n},
+    delimiters \\n and \\r\\n."""
+    import asyncio
+    import itertools
+    import os
+    import tempfile
+    from streamz.sources import from_textfile
+
+    async def run(path, writes, d):
+        open(path, 'wb').close()
+        src = from_textfile(path, poll_interval=0, delimiter=d, start=False, asynchronous=True)
+        got = src.sink_to_list()
+        try:
+            with open(path, 'ab') as w:
+                for chunk in writes:
+                    w.write(chunk)
+                    w.flush()
+                    await src._run()
+            await src._run()
+        finally:
+            src.file.close()
+        return got
+    cases, failures = 0, []
+    sample = [{'delimiter': '\n', 'writes': [repr(b'a\xc3'), repr(b'\xa9\n')]}]
+    tmp = tempfile.mkdtemp(prefix='verif_textfile_')
+    path = os.path.join(tmp, 'log.txt')
+    try:
+        for d in ('\n', '\r\n'):
+            for n in range(1, 5):
+                for text in map(''.join, itertools.product('a\u00e9\r\n', repeat=n)):
+                    raw = text.encode('utf-8')
+                    parts = text.split(d)
+                    want = [p + d for p in parts[:-1]]
+                    m = len(raw)
+                    cutsets = [()] + [(i,) for i in range(1, m)] + [(i, j) for i in range(1, m) for j in range(i + 1, m)]
+                    for cuts in cutsets:
+                        b = [0] + list(cuts) + [m]
+                        writes = [raw[b[i]:b[i + 1]] for i in range(len(b) - 1)]
+                        cases += 1
+                        try:
+                            got = asyncio.run(run(path, writes, d))
+                        except Exception as e:
+                            got = 'raised %s: %s' % (type(e).__name__, e)
+                        if got != want:
+                            failures.append({'op': 'from_textfile (bytes appended to a real file)', 'delimiter': d,
+                                             'writes': [repr(w) for w in writes], 'delivered': got, 'expected': want})
+                            if len(failures) >= 3:
+                                return cases, failures, sample
+    finally:
+        try:
+            os.remove(path)
+            os.rmdir(tmp)
+        except OSError:
+            pass
+    return cases, failures, sample
+
+
 def main():
     pid, tier = sys.argv[1], sys.argv[2]
     repo = sys.argv[4] if len(sys.argv) > 4 else '/repo'
@@ -266,6 +326,13 @@ def main():
         out['samples'] = out['samples'] + smp2
         out['ops'] = out['ops'] + ['from_textfile._run']
         out['space'] += "; from_textfile: every text of <= 6 characters over two-letter alphabets with delimiters \\n, \\n\\n, --, -a-, cut into <= 3 reads in every way"
+        c3, f3, smp3 = check_textfile_bytes()
+        out['cases'] += c3
+        out['distinct'] += c3
+        out['failures'] = out['failures'] + f3
+        out['samples'] = out['samples'] + smp3
+        out['ops'] = out['ops'] + ['from_textfile (bytes appended to a real file)']
+        out['space'] += "; from_textfile on a real file: every text of <= 4 characters over {a, e-acute, CR, LF} (UTF-8), delimiters LF and CRLF, appended in <= 3 writes cut at every byte position, one poll after each write"
     json.dump(out, sys.stdout, default=repr)
 
 
